@@ -216,6 +216,10 @@ def ob_errors(timeout_ms):
             ("nan total " + tag, [pop, [1.0] * (n - 1) + [float("nan")]], {}, "ValueError"),
             ("non-positive cum total " + tag, [pop], {"cum_weights": [float(i - n) for i in range(n)]}, "ValueError"),
             ("infinite cum total " + tag, [pop], {"cum_weights": [float(i) for i in range(n - 1)] + [float("inf")]}, "ValueError"),
+            # wrong in two ways: random.choices checks 'both kinds' first, then the length, then the total
+            ("both kinds + wrong length " + tag, [pop, [1.0] * (n + 1)], {"cum_weights": [1.0] * (n + 2)}, "TypeError"),
+            ("both kinds + zero total " + tag, [pop, [0.0] * n], {"cum_weights": [0.0] * n}, "TypeError"),
+            ("wrong length + zero total " + tag, [pop, [0.0] * (n + 1)], {}, "ValueError"),
         ]
     for name, args, kwargs, exc in cases:
         uid = SStr(z3.String("input_id"))
@@ -327,6 +331,43 @@ def ob_mutation(timeout_ms):
                                          "why": "deterministic_choice modifies its arguments (%s)" % (
                                              [(e[0], e[2]) for e in p.effects][:3],), "plain": ""})
         out["reach"] += 1
+    # symbolic weights: a write that happens only for particular values (e.g. a total close to 1) must not hide;
+    # the search below the checks is cut (bisect stubbed): it does not write
+    for form in ("weights", "cum_weights"):
+        for n in (1, 2, 3):
+            orig = [SFP(z3.FP("m_%s_%d" % (form, i), FP64)) for i in range(n)]
+            uid = SStr(z3.String("input_id"))
+            pop_n = pop[:n]
+
+            def setup_s(it):
+                it.call_overrides["pyab_experiment.binning.binning:deterministic_proba"] = C12.proba_recorder
+                it.call_overrides["bisect.bisect_right"] = lambda ctx, interp, a, k: 0
+            def entry_s(it, form=form, orig=orig, pop_n=pop_n, uid=uid):
+                # a fresh (non-local) argument list per path: the code under analysis may write into it
+                syms = list(orig)
+                env_ = it.import_module(BINNING)
+                a_ = [uid, list(pop_n)] + ([syms] if form == "weights" else [])
+                k_ = {} if form == "weights" else {"cum_weights": syms}
+                return it.call(env_.vars["deterministic_choice"], a_, k_)
+            run = api.run(entry_s, opts={"float_mode": "fp", "prune": False}, setup=setup_s)
+            syms = orig
+            absorb(out, run)
+            for p in run.paths:
+                if unsup(out, p, tally, timeout_ms):
+                    continue
+                if not p.effects:
+                    continue
+                r, m = common.check(tally, p.conds, timeout_ms,
+                                    label="C16(b) symbolic %s (n=%d): path with a write to an argument is feasible" % (form, n),
+                                    keep_sample=True)
+                note_unknown(out, r)
+                if r == "sat":
+                    vals = [harness.fp_model_value(m.eval(sv.term, model_completion=True)) for sv in syms]
+                    out["witnesses"].append({"kind": "choice_mutation", "args": [enc("u"), enc(pop_n)] + ([enc(vals)] if form == "weights" else []),
+                                             "kwargs": {} if form == "weights" else {"cum_weights": enc(vals)},
+                                             "why": "deterministic_choice modifies its %s argument for values %r (%s)" % (
+                                                 form, vals, [(e[0], e[2]) for e in p.effects][:2]), "plain": ""})
+                    break
     out["tally"] = tally
     return out
 
